@@ -577,8 +577,9 @@ class _Validator(Generic[T]):
         message = email.message.EmailMessage()
         try:
             message["content-type"] = value
-        except ValueError as exc:
-            # The email package refuses header values containing line breaks.
+        except (ValueError, IndexError) as exc:
+            # The email package refuses header values containing line breaks and
+            # fails with an IndexError on some malformed RFC 2231 parameters.
             raise self._invalid_metadata(
                 f"{value!r} is invalid for {{field}}", cause=exc
             ) from exc
